@@ -40,6 +40,8 @@ def run(ck):
         1 for c in cases if any(a[0] == b[0] and a[2] == b[2] and a[1] != b[1] for a in c["rows"] for b in c["rows"]))
     if ck.extra["datasets_with_score_ties_across_labels"] == 0:
         raise MachineryError("vacuity: no dataset with tied scores")
+    from harness import extras
+    extras.dispatch(ck)      # specification growth (refinement tier only): score dispatch and prefit semantics
     ck.assumptions += ["score values enter only through order and ties; levels are mapped to level/(L-1) and to random monotone floats",
                        "expected metrics computed from _pmf_predict on the training rows (plain sums)"]
 
